@@ -8,7 +8,9 @@ package ints
 //@   requires len(a) <= 16777216
 //@   requires forall k in 0..len(a): 0 <= a[k] && a[k] <= 16777216
 //@   ensures 0 <= result && result <= len(a) * 16777216
+//@   ensures result == psum(a, len(a))
 //@   loop 1
 //@     invariant -1 <= rangeindex && (rangeindex < len(a) || (len(a) == 0 && rangeindex == -1))
 //@     invariant 0 <= sum && sum <= (rangeindex + 1) * 16777216
+//@     invariant sum == psum(a, rangeindex + 1)
 //@     decreases len(a) - rangeindex
